@@ -159,6 +159,13 @@ def delete_episodes(run, sb, rng, tier):
             sb.delete("x", ["nosuchsample"], via="args")
             sb.delete("x", list(names), via=via)
             sb.delete("x", [names[0], "nosuchsample"], via="args")
+        # names given more than once: the request is the SET of names. Every sample named (one of them twice) is still
+        # "all samples"; one sample named as many times as there are samples is still a single sample.
+        if i % 3 == 1:
+            sb.delete("x", list(names) + [names[-1]], via=via)
+            sb.delete("x", [names[0]] * ns, via=via, out="z",
+                      extra={"rest": {"samples": jsamples(samples[1:]), "names": names[1:]}})
+            dn = dn + [dn[0]]
         sb.delete("x", dn, via=via, out="y" if i % 4 == 1 else None,
                   extra={"rest": {"samples": jsamples([samples[j] for j in keep]), "names": [names[j] for j in keep]}})
         sb.nk_event("y" if i % 4 == 1 else "x")
